@@ -102,7 +102,10 @@ class Site:
         sp = self.root / "search" / "search_database.json"
         if sp.exists():
             try:
-                self.search = json.loads(sp.read_text()).get("pages", [])
+                text = sp.read_text()
+                # the file is a script: `var tipuesearch = {...}`
+                text = text[text.index("{"):] if "{" in text else text
+                self.search = json.loads(text).get("pages", [])
             except Exception as e:  # noqa
                 self.search = [{"error": repr(e)}]
 
